@@ -556,9 +556,12 @@ class FillRequest(object):
                 else:
                     # at least one event present
                     # this would give bad performance for bufsize=1
-                    for val in el_run(chain([val],
-                                            islice(flow, bufsize-1))):
+                    rest = islice(flow, bufsize-1)
+                    for val in el_run(chain([val], rest)):
                         yield val
+                    # the element may not have consumed its whole block
+                    for val in rest:
+                        pass
                     # usually Run elements have no reset, but...
                     # we call reset here, because we don't call request
                     # (which usually calls reset itself)
@@ -569,19 +572,22 @@ class FillRequest(object):
         # because we need to be sure
         # that *bufsize* values were encountered
 
-        class slice_iterated_with_count():
+        class iterated_with_count():
+            # an iterator that counts the values it gave
 
-            def __init__(self, size, seq):
+            def __init__(self, seq):
                 self.count = 0
-                self._size = size
                 self._seq = seq
 
             def __iter__(self):
-                count = 0
-                for val in islice(self._seq, self._size):
-                    count += 1
-                    yield val
-                self.count = count
+                return self
+
+            def __next__(self):
+                val = next(self._seq)
+                self.count += 1
+                return val
+
+            next = __next__
 
         if self._buffer_input:
             while True:
@@ -600,10 +606,12 @@ class FillRequest(object):
                     self._el_reset()
         else:
             # buffer output
-            # slice_ can be iterated multiple times
-            slice_ = slice_iterated_with_count(bufsize, flow)
             while True:
+                slice_ = iterated_with_count(islice(flow, bufsize))
                 results = list(el_run(slice_))
+                # the element may not have consumed its whole block
+                for val in slice_:
+                    pass
                 if slice_.count < bufsize:
                     return
                 for val in results:
